@@ -1,5 +1,4 @@
 import BddVerif.Drive.C12
-import BddVerif.Gen.OpTables
 /-!
 Driver for C13 (deserialisers and `validate()` are safe on arbitrary input). Model side: `readText`,
 `readBytes`, `fromNodes`, `validate`, `evalIn` of `Model/Serial.lean` and `applyWithFlip` for `and(true)`.
@@ -66,7 +65,7 @@ def modelAccepted (A : Arr) : List String :=
     let count := if n ≤ 16 then
         (let r := render results
          if r == "panic" || r == "hang" then r else toString (r.toList.filter (· == '1')).length) else "-"
-    let and := showArr (applyWithFlip A (mkTrue n) Gen.and_ none none none)
+    let and := showArr (applyWithFlip A (mkTrue n) andLazy none none none)
     [evals, count, and]
 
 def validateField (A : Arr) : String :=
@@ -93,6 +92,8 @@ def acceptedClauses (A : Arr) (needReach : Bool) (evals count and : String) : Li
 
 def handle (key : String) (ins obs : List String) : Verdict :=
   match key, ins, obs with
+  | _, _, ["harness-panic"] =>
+    { agree := false, model := "no-panic", fail := some "harness-panic", nontrivial := false, tags := ["harness-panic"] }
   | "C13.text", [data], [kind, bdd, reser, v, evals, count, and] =>
     let bytes := unhex data
     let mo := readText bytes
@@ -117,7 +118,7 @@ def handle (key : String) (ins obs : List String) : Verdict :=
         (if asText.isSome && bytes.any (fun b => b.toNat ≥ 0x80) then ["multibyte-utf8"] else []) }
   | "C13.bytes", [data], [kind, bdd, v, evals, count, and] =>
     let bytes := unhex data
-    let mo := readBytes bytes
+    let mo := readBytesS bytes
     let model := match mo with
       | .ok A =>
         let mv := validateField A
